@@ -457,6 +457,21 @@ def correspond(model_ok, res):
                         None))
                 cases.append("(%s, %s, %s, Some %s)" % (tgname, lib.g_str(ah), before, lib.g_item(got)))
                 payloads.append(dict(payload, what="k-th result of a reused resolver vs model"))
+                # an instance built with OTHER settings whose public attributes are then set to these ones
+                try:
+                    others = [c for _, c in targets(T) if c is not tgcls]
+                    tog = UnknownOperationResolver(resolve_to=others[k % len(others)], add_head="\t")
+                    tog(tree)
+                    tog.resolve_to, tog.add_head = tgcls, ah
+                    got2 = tog(tree)
+                    if lib.g_item(got2) != lib.g_item(fresh):
+                        res.failures.append((dict(
+                            payload, why="a resolver whose resolve_to / add_head attributes were set after "
+                            "construction (and after a call) differs from one built with them",
+                            toggled_result=gentree.describe(got2)[:800], fresh_result=gentree.describe(fresh)[:800]),
+                            None))
+                except Exception as e:
+                    res.failures.append((dict(payload, why="exception %r on a re-configured resolver" % e), None))
 
     # the invalid target: the constructor raises ValueError, the model answers None
     try:
